@@ -169,6 +169,19 @@ def run(repo: Repo, rep: Report, tier: str) -> None:
     rep.check(ok, "C04-R5", "bidirectional sinks are always routed directly", "a loop over the bidirectional sinks routes them with _route_edge_directly whatever the spanning tree did" if ok else
               ("no direct-routing loop over the bidirectional sinks" if not over_bidir else "the only loop that routes bidirectional sinks is conditional on the spanning-tree outcome: when the tree succeeds the loop-closing wire of a two-combinator feedback loop is never laid"), pop.loc())
 
+    # every sink of a source is wired by exactly one of: the spanning tree, the fallback direct loop, the bidirectional direct loop
+    mst_calls = calls_in(pop.node, "_apply_mst_to_source_fanout")
+    fallback = [n for n in routing_loops if any((not pol) and "_apply_mst_to_source_fanout(" in g for g, pol in cguards(pop, n)) or any("mst" in g.lower() for g, _ in cguards(pop, n))]
+    rep.floor("C04-R5", "spanning-tree call sites in the wire population", len(mst_calls), 1)
+    for mc_ in mst_calls:
+        tree_arg = cpop.text(mc_.args[1]) if len(mc_.args) > 1 else ""
+        same = bool(fallback) and all(cpop.text(n.iter) == tree_arg for n in fallback)
+        covers = any(f"not in set()" in tree_arg and nm for nm in bidir_sets) and tree_arg.count(" if ") == 1
+        rep.check(same and covers, "C04-R5", "the sinks handed to the spanning tree are exactly the non-bidirectional sinks, and the same list is wired directly when the tree is not used",
+                  "tree argument == fallback loop iterable == [sink for sink in sinks if sink not in bidirectional]" if same and covers else
+                  (f"the tree gets `{tree_arg[-70:]}` but the fallback loop wires `{cpop.text(fallback[0].iter)[-70:] if fallback else 'nothing'}`: sinks outside the tree are wired only when the tree fails"
+                   if not same else "the list handed to the tree excludes more than the bidirectional sinks"), pop.loc(mc_))
+
     # ---------------- R6 ---------------------------------------------------------------
     from .shared import borrow as _borrow4
     _borrow4(repo, rep, "C03", "C03-R7", "C04-R6", "the loop's last combinator emits the signal the cell is read on: the written value is coerced onto the cell's signal on every path")
